@@ -157,6 +157,18 @@ class Ctx:
         shutil.rmtree(self.tmp, ignore_errors=True)
 
 
+def pmap(fn, items, procs=16, chunk=None):
+    """Run fn over items in forked worker processes (real-code replays); order preserved."""
+    items = list(items)
+    if len(items) < 64 or procs <= 1:
+        return [fn(x) for x in items]
+    import multiprocessing as mp
+    if chunk is None:
+        chunk = max(1, min(500, len(items) // (procs * 4)))
+    with mp.get_context('fork').Pool(procs) as pool:
+        return pool.map(fn, items, chunksize=chunk)
+
+
 def _load_known(pid):
     path = os.path.join(VERIF, 'known_findings.json')
     if not os.path.exists(path):
